@@ -35,9 +35,11 @@ MkDir(flags, wi, pi, verb) == Dir(flags, WOpts[wi][1], IF WOpts[wi][1] = "n" THE
 CaseFmt(d) == <<LBRK>> \o DirText(d) \o <<RBRK>>
 CaseArgs(wi, pi, v) == (IF WOpts[wi][1] = "star" THEN <<VNum(NatNum(WOpts[wi][2]))>> ELSE <<>>) \o
                        (IF POpts[pi][1] = "star" THEN <<VNum(NatNum(POpts[pi][2]))>> ELSE <<>>) \o <<v>>
-RECURSIVE SetSum(_)
-SetSum(S) == IF S = {} THEN 0 ELSE LET e == CHOOSE e \in S : TRUE IN e + SetSum(S \ {e})
-CaseHash(flags, wi, pi, verb) == SetSum(flags) + 7 * wi + 13 * pi + verb
+\* stratification of the single-directive family: the flag set is numbered 0..31, so that every
+\* (width, precision, conversion) has the same number of flag sets in every stratum
+FlagIndex(flags) == (IF MINUS \in flags THEN 1 ELSE 0) + (IF PLUS \in flags THEN 2 ELSE 0) + (IF SP \in flags THEN 4 ELSE 0) +
+                    (IF HASH \in flags THEN 8 ELSE 0) + (IF D0 \in flags THEN 16 ELSE 0)
+CaseHash(flags, wi, pi, verb) == FlagIndex(flags) + 3 * wi + 5 * pi + verb
 
 \* what C leaves undefined in a directive (judged by glibc's behaviour, kept apart in signatures)
 UbFlags(d) == \/ HASH \in d.flags /\ d.verb \in {c_d, c_i, c_u, c_c, c_s}
